@@ -17,7 +17,7 @@ m = {
     "engines": [{"name": "lean-model", "path": "lean/", "serves_properties": sorted(CLAIMS["checks"].keys()),
                  "kind_free_text": "Lean 4 model (HtpModel) + property theorems (HtpModel/Props) + compiled line-protocol driver (htpdrv)"},
                 {"name": "translator", "path": "extract/", "serves_properties": sorted(CLAIMS["checks"].keys()),
-                 "kind_free_text": "tabulates finite functions/tables/constants of the current sources into Lean (Gen/*.lean)"},
+                 "kind_free_text": "regenerated on every run from the current sources: extract.py/tabulate.c tabulate finite functions, tables and constants (Gen/Tables.lean, pinned); ctrans.py translates the control flow of 42 leaf functions from clang's typed AST into Lean terms (Gen/CFuns.lean over HtpModel/CSem.lean), each proved equal to the hand-written model (Lemmas/CFuns*.lean)"},
                 {"name": "correspondence", "path": "harness/ checks/", "serves_properties": sorted(CLAIMS["checks"].keys()),
                  "kind_free_text": "C harness on freshly compiled sources vs Lean driver, diff + shrink; property oracles search for failing inputs"}],
     "checks": [],
